@@ -75,7 +75,7 @@ fn check_common_post(port: &RPort<'_>, pre: &Pre, fcfg: &RecFilterCfg, measured:
 }
 
 // @harness c09_sync
-// @props C09 C07 C03 C17
+// @props C09:quick C07:thorough C03:thorough C17:thorough
 // @tier quick
 // @variant lists2
 // @timeout 1200
@@ -157,7 +157,7 @@ fn c09_sync() {
 }
 
 // @harness c09_follow_up
-// @props C09 C07 C03:thorough C17:thorough
+// @props C09:quick C07:thorough C03:thorough C17:thorough
 // @tier quick
 // @variant lists2
 // @timeout 1200
@@ -227,7 +227,7 @@ fn c09_follow_up() {
 }
 
 // @harness c09_delay_timestamp
-// @props C09 C03:thorough C17:thorough
+// @props C09:quick C03:quick C17:quick
 // @tier quick
 // @variant lists2
 // @timeout 1200
@@ -275,7 +275,7 @@ fn c09_delay_timestamp() {
 }
 
 // @harness c09_delay_resp
-// @props C09 C07 C03 C17:thorough
+// @props C09:quick C07:quick C03:thorough C17:thorough
 // @tier quick
 // @variant lists2
 // @timeout 1200
